@@ -19,8 +19,8 @@ fn ser_upper_bound<const A: usize, const B: usize, const C: usize>(threshold: u1
 }
 
 /// C08: stream round-trip with the lossless codec: decode(encode(items)) == items, all bytes consumed
-fn ser_stream_roundtrip<const A: usize, const B: usize>(threshold: u16) {
-    crate::vstd::zstd::set_codec(crate::vstd::zstd::Codec::IdentityOrFail);
+fn ser_stream_roundtrip<const A: usize, const B: usize>(threshold: u16, raw_blocks: bool) {
+    crate::vstd::zstd::set_codec(if raw_blocks { crate::vstd::zstd::Codec::AlwaysFail } else { crate::vstd::zstd::Codec::Identity });
     let mut w = CompressedStreamWriter::with_block_threshold(threshold);
     let a: [u8; A] = kani::any(); let b: [u8; B] = kani::any();
     w.append(&a); w.append(&b);
